@@ -38,3 +38,59 @@ def with_crc_trailer(crc, body):
     if crc:
         return body + be(2, crc16(body))
     return body
+
+
+# ---- TLV items, 727.0-B-5 section 5.4 (tables 5-15 ... 5-20)
+
+def tlv_type_known(t):
+    """TLV type codes of table 5-3 / section 5.4: 00 filestore request, 01 filestore response, 02 message to user,
+    04 fault handler override, 05 flow label, 06 entity ID"""
+    return either(t == 0, t == 1, t == 2, t == 4, t == 5, t == 6)
+
+
+def fs_action_known(action):
+    """filestore action codes of table 5-16: 0 create file ... 8 deny directory"""
+    return both(0 <= action, action <= 8)
+
+
+def fs_second_name(action):
+    """table 5-16: a second file name is present for rename (2), append (3) and replace (4) only"""
+    return either(action == 2, action == 3, action == 4)
+
+
+def fs_request_octets(action, name1, name2):
+    """5.4.1: type 00; value = action code (4 bits), 4 spare bits, first file name LV, second file name LV (present
+    only for the action codes that take two names).  name1/name2 are the octets of the names."""
+    v = be(1, action * 16) + lv(name1)
+    if fs_second_name(action):
+        v = v + lv(name2)
+    return tlv(0, v)
+
+
+def fs_response_octets(action, status, name1, name2, msg):
+    """5.4.2: type 01; value = action code (4 bits), status code (4 bits), first file name LV, second file name LV
+    (as in the request), filestore message LV"""
+    v = be(1, action * 16 + status) + lv(name1)
+    if fs_second_name(action):
+        v = v + lv(name2)
+    return tlv(1, v + lv(msg))
+
+
+def msg_to_user_octets(msg):
+    """5.4.3: type 02, value = the message"""
+    return tlv(2, msg)
+
+
+def fault_handler_octets(condition, handler):
+    """5.4.4: type 04, value = condition code (4 bits), handler code (4 bits)"""
+    return tlv(4, be(1, condition * 16 + handler))
+
+
+def flow_label_octets(label):
+    """5.4.5: type 05, value = the flow label"""
+    return tlv(5, label)
+
+
+def entity_id_octets(entity_id):
+    """5.4.6: type 06, value = the entity ID"""
+    return tlv(6, entity_id)
